@@ -1037,6 +1037,27 @@ def m_int_op(name):
     return f
 
 
+def m_ord_minmax(which):
+    """Ord::max / Ord::min on integer constants of a primitive type"""
+    def f(it, args, callee, depth):
+        a, b = deref_all(it, args[0]), deref_all(it, args[1])
+        if not all(isinstance(v, int) and not isinstance(v, bool) for v in (a, b)):
+            return NotImplemented
+        import re as _re8
+        c_ = callee or {}
+        m = _re8.search(r"<([iu](?:8|16|32|64|128|size)) as core::cmp::Ord>", " ".join([c_.get("path", ""), c_.get("full", ""), ((c_.get("res") or {}).get("path", ""))]))
+        if not m:
+            return NotImplemented
+        bits = INT_BITS.get(m.group(1), 64)
+
+        def sg(v):
+            v &= (1 << bits) - 1
+            return v - (1 << bits) if m.group(1).startswith("i") and (v >> (bits - 1)) & 1 else v
+        r = max(sg(a), sg(b)) if which == "max" else min(sg(a), sg(b))
+        return r & ((1 << bits) - 1)
+    return f
+
+
 def m_range_contains_const(it, args, callee, depth):
     """(a..b).contains(&x) / (a..=b).contains(&x) on integer constants"""
     rg, x = deref_all(it, args[0]), deref_all(it, args[1])
@@ -1272,6 +1293,14 @@ def m_identity(it, args, callee, depth):
     return args[0]
 
 
+def m_deref_std(it, args, callee, depth):
+    """Deref::deref: the crate's own impl (Slice2 -> Inner, ...) is interpreted; std smart pointers and references are the identity"""
+    res = ((callee or {}).get("res") or {}).get("path", "")
+    if res and res.startswith(("retrofire_", "<retrofire_")) or (res and "retrofire_" in res and it.prog.lookup(res) is not None):
+        return NotImplemented
+    return args[0]
+
+
 def m_clone(it, args, callee, depth):
     res = ((callee or {}).get("res") or {}).get("path", "")
     if res and res in it.prog.bodies:
@@ -1400,6 +1429,7 @@ STD_MODELS = [
     (">::wrapping_add", m_int_op("wrapping_add")),
     (">::wrapping_mul", m_int_op("wrapping_mul")),
     (">::abs_diff", m_int_op("abs_diff")),
+    ("cmp::Ord::max", m_ord_minmax("max")), ("cmp::Ord::min", m_ord_minmax("min")),
     ("ops::range::Range::<Idx>::contains", m_range_contains_const), ("ops::range::RangeInclusive::<Idx>::contains", m_range_contains_const),
     (">::leading_zeros", m_int_bits("leading_zeros")),
     (">::trailing_zeros", m_int_bits("trailing_zeros")),
@@ -1453,7 +1483,7 @@ STD_MODELS = [
     ("core::ops::function::FnOnce::call_once", m_fn_call),
     ("core::convert::Into::into", m_identity),
     ("core::convert::From::from", m_identity),
-    ("core::ops::deref::Deref::deref", m_identity),
+    ("core::ops::deref::Deref::deref", m_deref_std),
     ("core::borrow::Borrow::borrow", m_identity),
     ("core::convert::AsRef::as_ref", m_identity),
 ]
